@@ -242,14 +242,17 @@ CLAIMED["C04"] = (
     "DESIGN.md 3/C04",
 )
 CLAIMED["C05"] = (
-    "trace-invariant monitor (state machine over the formatted payload sequence) on every explored run of the "
-    "incremental request domain under the deterministic scheduler",
+    "trace-invariant monitor (state machine over the formatted payload sequence) on (a) every explored run of "
+    "the incremental request domain under the deterministic scheduler and (b) a bounded enumeration of small work "
+    "graphs x completion orders driving the real WorkQueue + IncrementalPublisher directly",
     "On every payload: ids are announced once before any data and never reused, incremental entries target a "
     "pending id and an existing object or list of the data assembled so far, every announced id is completed "
     "exactly once, a necessarily nested fragment is not announced while its announced enclosing fragment stays "
     "pending, hasNext is true except on the last payload and nothing follows it, and the stream terminates.",
     "Static nesting is taken from the generated document (every-route enclosure); open known findings F11 and "
-    "F20 are excluded by predicate; the bounded-exhaustive direct drive of WorkQueue is not built yet.",
+    "F20 are excluded by predicate; the direct drive enumerates graphs with <= 2 (3) delivery groups, <= 2 tasks, "
+    "<= 1 (2) streams and caps the completion orders per graph (the evidence histogram counts the graphs whose "
+    "orders were enumerated completely).",
     "DESIGN.md 3/C05",
 )
 CLAIMED["C06"] = (
@@ -260,8 +263,10 @@ CLAIMED["C06"] = (
     "has followed the documented protocol and the harness gates are released no task or harness resolver is left, "
     "every started generator source ran its finally exactly once, async_work_finished fired exactly once and "
     "not before resolvers and sources had settled, and nothing reached the loop's exception handler.",
-    "Stop points are quiescent points chosen by the schedule; harness resolvers honour cancellation; open known "
-    "finding F25 (early execution: hook one iteration early) is excluded by predicate.",
+    "Stop points are chosen by the schedule (aclose right after payload k, abort at a quiescent point); harness "
+    "resolvers honour cancellation; source records are read before the private loop is closed, so a source that is "
+    "only finalised by loop.shutdown_asyncgens() counts as not closed. No open finding: the fifteen defects found "
+    "(F10, F12, F13, F21-F24, F26-F34) are repaired in the repository and kept as replays.",
     "DESIGN.md 3/C06",
 )
 PENDING_REASON = (
